@@ -12,7 +12,7 @@ import traceback
 from pathlib import Path
 
 sys.path.insert(0, str(Path(__file__).resolve().parent))
-sys.path.insert(0, "/repo/src")
+sys.path.insert(0, os.path.join(os.environ.get("AIU_REPO", "/repo"), "src"))
 
 from lib import core  # noqa: E402
 from lib.core import Ctx, Infra  # noqa: E402
